@@ -437,10 +437,10 @@ def set_override(app, rule, kind):
                                     overwrite=False, use_conf=False)
 
 
-def policy_lines(app, db0, rnd, tier, rules):
+def policy_lines(app, db0, rnd, tier, rules, with_default=True):
     secrets = [U('p1'), U('p2'), U('c1'), U('agg1'), 'proj1', 'user1']
     lines = []
-    plans = [('', '')] if rules == [] or True else []
+    plans = [('', '')] if with_default else []
     for r in rules:
         plans.append((r, '@'))
         plans.append((r, '!'))
@@ -456,19 +456,22 @@ def policy_lines(app, db0, rnd, tier, rules):
                 mine = [o for o in OPS if RULE_OF[o] == ovrule]
                 others = [o for o in OPS if RULE_OF[o] != ovrule]
                 ops = mine + rnd.sample(others, 3)
+            # under the default policy every band of versions with a handler variant of its own
+            versions = ['1.39', '1.0', '1.6', '1.12', '1.27', '1.33', '1.37'] if ovrule == '' else ['1.39']
             for (route, method) in ops:
                 body = _policy_body(route, method)
-                app.restore('surf')
-                ast, ah, ab = app.call(method, concrete(route, method), hdr('1.39', 'admin+service', body is not None), body)
-                for caller in CALLERS:
+                for ver in versions:
                     app.restore('surf')
-                    st, h, b = app.call(method, concrete(route, method), hdr('1.39', caller, body is not None), body)
-                    post, _ = project.dump(app.engine)
-                    text = b.decode('utf-8', 'replace')
-                    lines.append({'kind': 'policy', 'route': route, 'method': method, 'caller': caller,
-                                  'ovrule': ovrule, 'ovkind': ovkind, 'status': st, 'admin_status': ast,
-                                  'changed': post != db0,
-                                  'leaked': st >= 400 and any(x in text for x in secrets)})
+                    ast, ah, ab = app.call(method, concrete(route, method), hdr(ver, 'admin+service', body is not None), body)
+                    for caller in CALLERS:
+                        app.restore('surf')
+                        st, h, b = app.call(method, concrete(route, method), hdr(ver, caller, body is not None), body)
+                        post, _ = project.dump(app.engine)
+                        text = b.decode('utf-8', 'replace')
+                        lines.append({'kind': 'policy', 'route': route, 'method': method, 'caller': caller,
+                                      'ovrule': ovrule, 'ovkind': ovkind, 'status': st, 'admin_status': ast,
+                                      'changed': post != db0, 'version': ver,
+                                      'leaked': st >= 400 and any(x in text for x in secrets)})
         finally:
             pass
     set_override(app, '', '')
@@ -590,7 +593,7 @@ def worker(job):
     elif job['part'] == 'features':
         lines = feature_lines(app)
     else:
-        lines = policy_lines(app, db0, rnd, job['tier'], job['rules'])
+        lines = policy_lines(app, db0, rnd, job['tier'], job['rules'], job.get('with_default', True))
     verdicts, wall = validate(lines)
     bad = []
     for ln in lines:
